@@ -10,7 +10,10 @@ package server
 //@ guarded (runnerRef).refCount, expireTimer, sessionDuration, expiresAt, loading by refMu
 //@ guarded (runnerRef).llama, model, Options, gpus by refMu | (Scheduler).loadedMu
 //@ guarded (Scheduler).loaded by loadedMu
-//@ lockinv (Scheduler).loadedMu : this.loaded != nil
+// C15/C11 (added by the audit; one lockinv per mutex, so the original `this.loaded != nil` is kept as the
+// first conjunct): whenever loadedMu is free, every entry of the loaded map is a runner that has
+// not been torn down (model and server present) and is keyed by its own model path.
+//@ lockinv (Scheduler).loadedMu : this.loaded != nil && (forall k string :: has(this.loaded, k) ==> (this.loaded[k] != nil && this.loaded[k].model != nil && this.loaded[k].llama != nil && this.loaded[k].modelPath == k))
 
 // llm.LlamaServer is external; its methods do not touch scheduler state.
 //@ extern func llm.(LlamaServer).Close
@@ -34,6 +37,7 @@ package server
 //@   modifies nothing
 //@ extern func time.AfterFunc
 //@   modifies nothing
+//@   ensures result != nil
 //@ extern func (*runnerRef).waitForVRAMRecovery
 //@   modifies nothing
 
@@ -45,6 +49,14 @@ package server
 //@   requires heldany(Scheduler.loadedMu)
 //@   modifies runner.expireTimer, runner.model, runner.llama, runner.Options, runner.gpus
 //@   ensures runner.llama == nil
+// C02 (every runner that was started is shut down) / C01 (at most once): unload closes the
+// server it finds, exactly once, and nothing else; afterwards there is no server left to close.
+//@   ghost-at entry : ghost_had := ite(runner.llama != nil, 1, 0)
+//@   ghost-at entry : ghost_closed := 0
+//@   assert-at call Close : recv == runner.llama
+//@   ghost-at call Close : ghost_closed := ghost_closed + 1
+//@   assert-at return : ghost_closed == ghost_had
+//@   ensures runner.expireTimer == nil && runner.model == nil
 
 // C01: a runner that has been shut down (llama == nil after unload) is never handed to a
 // request; the reference is taken before the runner is sent.
@@ -60,12 +72,35 @@ package server
 //@   assume-at after call sync.(*Mutex).Lock #1 : runner.refCount < 9223372036854775807   -- range assumption: fewer than 2^63 concurrent references (uint counter does not wrap)
 //@   ghost-at call useLoadedRunner$1 : ghost_fin := ghost_fin + 1
 //@   assert-at return : (result ==> ghost_fin == 1 && runner.refCount == ghost_rc0 + 1) && (!result ==> ghost_fin == 0 && runner.refCount == ghost_rc0)
+// C01 (mechanism: refCount++ and timer stop under refMu BEFORE the runner is sent): at the
+// hand-off the reference is already counted, no keep-alive timer is pending and refMu is held.
+//@   assert-at send successCh : sent == runner && held(runner.refMu) && runner.refCount == ghost_rc0 + 1 && runner.expireTimer == nil
+// C02: the request is refused (to be placed again) only because the runner has been shut down;
+// a granted request's keep-alive replaces the runner's.
+//@   assert-at return : !result ==> runner.llama == nil
+//@   assert-at return : (result && pending.sessionDuration != nil) ==> runner.sessionDuration == pending.sessionDuration.Duration
 
 //@ func (*Scheduler).load
 //@   ghost-at entry : ghost_replies := 0
 //@   ghost-at send errCh : ghost_replies := ghost_replies + 1
 //@   ghost-at call load$1 : ghost_replies := ghost_replies + 1     -- handing over to the goroutine that sends the one reply
 //@   assert-at return : ghost_replies == 1
+// C11 (one runner per model; served by a runner started with the request's options): the server
+// is started for the request's model with the request's options and the parallelism that the
+// runner records (needsReload divides the context by it: at least 1); the runner is published
+// under the request's model path, which is also the key it will be deleted by; it is marked as
+// loading and records the GPUs it was placed on (filterGPUsWithoutLoadingModels relies on both).
+//@   assert-at call newServerFn : arg1 == req.model.ModelPath && arg5.Runner.NumCtx == req.opts.Runner.NumCtx && arg6 == numParallel && arg6 >= 1
+//@   assert-at call sync.(*Mutex).Unlock #1 : has(s.loaded, req.model.ModelPath) && s.loaded[req.model.ModelPath] == runner && runner.modelPath == req.model.ModelPath
+//@   assert-at call load$1 : runner.numParallel == numParallel && runner.numParallel >= 1
+//@   assert-at call load$1 : runner.loading
+//@   assert-at call load$1 : runner.model == req.model
+// C02 (drain): the keep-alive of a new runner is the request's, else the configured default.
+//@   ghost-at after call envconfig.KeepAlive : ghost_ka := result
+//@   assert-at call load$1 : runner.sessionDuration == ite(req.sessionDuration != nil, req.sessionDuration.Duration, ghost_ka) && runner.expireTimer == nil
+// C02: an error reply carries an error.
+//@   assert-at send errCh : sent != nil
+//@   assume-at call newServerFn : req.model != nil      -- Go semantics: req.model.ModelPath is evaluated for this call; with a nil req.model execution would have stopped there
 
 //@ func (*Scheduler).load$1
 //@   requires held(runner.refMu) && runner.llama != nil && runner.refCount == 1
@@ -80,6 +115,18 @@ package server
 //@   ghost-at entry : ghost_fin := 0
 //@   ghost-at call load$1$1 : ghost_fin := ghost_fin + 1
 //@   assert-at return : ghost_fin <= 1 && runner.refCount == ghost_fin
+// C02 (mechanism: failed load drops its reference, reports the error and posts an expiry): when
+// the reference is dropped here, exactly one expiry of THIS runner is posted (nobody else will:
+// no timer is armed, no finished event will come); when it is handed to the finisher, none.
+//@   ghost-at entry : ghost_exp := 0
+//@   ghost-at send expiredCh : ghost_exp := ghost_exp + 1
+//@   assert-at send expiredCh : sent == runner && sent.refCount == 0 && held(sent.refMu)
+//@   assert-at return : ghost_exp == 1 - ghost_fin
+// C01/C11: the runner handed out is the one that was loaded, no longer marked as loading
+// (a runner stuck in `loading` keeps its GPUs excluded from placement for good), holding
+// exactly the request's reference; an error reply carries an error.
+//@   assert-at send successCh : sent == runner && sent.loading == false && sent.refCount == 1 && held(sent.refMu)
+//@   assert-at send errCh : sent != nil
 
 // C11: the loaded map (whose size is compared with the configured maximum, and which is
 // searched per model path) covers every live runner: an entry is deleted only after the
@@ -92,11 +139,54 @@ package server
 // finished event of that holder brings the next expiry. An idle runner is unloaded by THIS event.
 // (added after seeded change C02-seed3, which also put it off while `loading` was set)
 //@   assert-at call processCompleted$2 : runner.refCount > 0
+// C01/C02 (mechanism: the finish event decrements and arms/resets the keep-alive timer): the finished
+// event is applied to the runner loaded for the finished request's model; it gives back exactly ONE
+// reference; when that leaves the runner idle, the runner is certain to expire: either its expiry
+// has been posted (always when its keep-alive is zero: eviction / explicit unload are waiting for
+// it) or a keep-alive timer is pending. The expiry is posted only for an idle runner, under refMu.
+//@   assert-at call sync.(*Mutex).Unlock #1 : (has(s.loaded, finished.model.ModelPath) ==> runner == s.loaded[finished.model.ModelPath]) && (!has(s.loaded, finished.model.ModelPath) ==> runner == nil)
+//@   ghost-at after call sync.(*Mutex).Lock #2 : ghost_rc1 := runner.refCount
+//@   ghost-at after call sync.(*Mutex).Lock #2 : ghost_posted := 0
+//@   ghost-at send expiredCh #1 : ghost_posted := 1
+//@   assert-at send expiredCh #1 : sent == runner && sent.refCount == 0 && held(sent.refMu) && sent.expireTimer == nil
+//@   assert-at call sync.(*Mutex).Unlock #2 : ghost_rc1 > 0 ==> runner.refCount == ghost_rc1 - 1
+//@   assert-at call sync.(*Mutex).Unlock #2 : runner.refCount == 0 ==> (ghost_posted == 1 || runner.expireTimer != nil)
+//@   assert-at call sync.(*Mutex).Unlock #2 : (runner.refCount == 0 && runner.sessionDuration <= 0) ==> ghost_posted == 1
+//@   assert-at call sync.(*Mutex).Unlock #2 : runner.refCount > 0 ==> ghost_posted == 0
+// C02 (mechanism: unload: Close, delete from loaded, then post unloadedCh): every expiry that shuts
+// a runner down posts exactly one unloaded event afterwards (the pending loop is parked on it), and
+// an unloaded event is posted only after a shutdown. ghost_unl = events owed.
+//@   ghost-at entry : ghost_unl := 0
+//@   ghost-at after call unload : ghost_unl := ghost_unl + 1
+//@   assert-at send unloadedCh : ghost_unl == 1
+//@   ghost-at send unloadedCh : ghost_unl := ghost_unl - 1
+//@   loop 1 invariant ghost_unl == 0
+// the runner that is unloaded is the expired one, and the entry removed is the one it is keyed by
+//@   assert-at call unload : arg0 == runner && held(runner.refMu)
+//@   assert-at call delete #1 : arg1 == runner.modelPath
+// the put-off expiry is re-posted for the same runner
+//@   assert-at call processCompleted$2 : arg0 == runner
+// C11/C01 (the loaded map covers every live runner): the entry removed is the expired runner's OWN
+// entry - a stale expiry of a runner that has already been removed must not remove the entry of a
+// newer runner that was loaded under the same model path in the meantime.
+//@   assert-at call delete #1 : has(s.loaded, runner.modelPath) ==> s.loaded[runner.modelPath] == runner
+// C15 (the list of running models never reports a runner that has been torn down) / C02 (nothing is
+// reported as loaded): when loadedMu is released after the shutdown, the runner that was shut down is
+// no longer in the loaded map.
+//@   assert-at call sync.(*Mutex).Unlock #4 : runner.llama == nil && (!has(s.loaded, runner.modelPath) || s.loaded[runner.modelPath] != runner)
 
 // C02: the caller of GetRunner is never blocked: the queue send sits in a select with
 // default, and the busy error goes to a fresh channel of capacity 1.
 //@ func (*Scheduler).GetRunner
 //@   opt nonblocking on
+// C02: the request that is queued carries the caller's context (the finisher waits on it), model and
+// keep-alive and the two reply channels that are returned; the busy reply is ErrMaxQueue, sent at
+// most once.
+//@   ghost-at entry : ghost_busy := 0
+//@   ghost-at send errCh : ghost_busy := ghost_busy + 1
+//@   assert-at send errCh : sent == ErrMaxQueue
+//@   assert-at send pendingReqCh : sent.ctx == c && sent.model == model && sent.sessionDuration == sessionDuration && sent.successCh != nil && sent.errCh != nil
+//@   assert-at return : ghost_busy <= 1 && result.0 == req.successCh && result.1 == req.errCh
 
 // C11: a new runner is started only when no runner exists for that model (read under
 // loadedMu in the same iteration; processPending is the only inserter).
@@ -110,14 +200,97 @@ package server
 //@   ghost-at after call sync.(*Mutex).Lock : ghost_posted := 0
 //@   ghost-at send expiredCh : ghost_posted := 1
 //@   assert-at call sync.(*Mutex).Unlock : (runnerToExpire != nil && arg0 == &runnerToExpire.refMu) ==> (runnerToExpire.sessionDuration == 0 && runnerToExpire.expireTimer == nil && (runnerToExpire.refCount == 0 ==> ghost_posted == 1))
+// C02 (never none, never both, inside the pending loop): a request taken from the queue (and
+// not already cancelled) leaves the placement loop only after exactly ONE of: an error reply, a
+// hand-over to loadFn (which replies exactly once, see load), a successful useLoadedRunner
+// (replies exactly once), or the requeue goroutine (puts it back on the queue). ghost_owed is
+// the number of answers still owed: 1 at every head of the placement loop (a `continue` after an
+// answer would answer twice), 0 at every head of the outer loop (a `break` without an answer
+// would lose the request). Only the shutdown returns leave a request unanswered.
+//@   ghost-at entry : ghost_owed := 0
+//@   ghost-at after call envconfig.NumParallel : ghost_owed := 1
+//@   ghost-at send errCh : ghost_owed := ghost_owed - 1
+//@   ghost-at call loadFn : ghost_owed := ghost_owed - 1
+//@   ghost-at after call useLoadedRunner : ghost_owed := ghost_owed - ite(result, 1, 0)
+//@   ghost-at call processPending$1 : ghost_owed := ghost_owed - 1
+//@   loop 1 invariant ghost_owed == 0
+//@   loop 2 invariant ghost_owed == 1
+//@   loop 3 invariant ghost_owed == 1
+// C02: the finished event of a reused runner goes to the scheduler's own finished queue.
+//@   assert-at call useLoadedRunner : arg0 == pending && arg1 == runner && arg2 == s.finishedReqCh
+// C11 (limit, one per model): the decision is taken on a snapshot read under loadedMu in THIS
+// iteration: the runner looked up is the one for the request's model, the count is the map size.
+//@   assert-at call sync.(*Mutex).Unlock #1 : (has(s.loaded, pending.model.ModelPath) ==> runner == s.loaded[pending.model.ModelPath]) && (!has(s.loaded, pending.model.ModelPath) ==> runner == nil)
+//@   assert-at call sync.(*Mutex).Unlock #1 : loadedCount == len(s.loaded)
+// C11 (limit): when a maximum is configured, a runner is started only while the number of loaded
+// runners is below it (the two reads of the setting in the capacity test are recorded).
+//@   ghost-at after call envconfig.MaxRunners #1 : ghost_m1 := result
+//@   ghost-at after call envconfig.MaxRunners #2 : ghost_m2 := result
+//@   assert-at call loadFn : ghost_m1 <= 0 || loadedCount < wrapint(ghost_m2)
+// C11 (incompatible options: the runner of THAT model is replaced, nobody else's)
+//@   assert-at call sync.(*Mutex).Lock #2 : runner != nil ==> runnerToExpire == runner
+// C01 (eviction enqueues an expiry only for an idle victim, under its refMu)
+//@   assert-at send expiredCh : sent == runnerToExpire && sent.refCount == 0 && held(sent.refMu)
 
 // C02: exactly one reply on this path too.
 //@ func (*Scheduler).processCompleted$1
+// (keep-alive timer callback) C02 drain: posts exactly one expiry of its runner, under refMu,
+// with the timer reference cleared.
+//@   ghost-at entry : ghost_exp := 0
+//@   ghost-at send expiredCh : ghost_exp := ghost_exp + 1
+//@   assert-at send expiredCh : sent == runner && held(runner.refMu) && runner.expireTimer == nil
+//@   assert-at return : ghost_exp == 1
+
+// C02: the helper goroutines do the one thing the counting above relies on.
+// retry goroutine of a put-off expiry: re-posts that runner's expiry exactly once
+//@ func (*Scheduler).processCompleted$2
+//@   ghost-at entry : ghost_exp := 0
+//@   ghost-at send expiredCh : ghost_exp := ghost_exp + 1
+//@   assert-at send expiredCh : sent == runner
+//@   assert-at return : ghost_exp == 1
+// requeue goroutine: puts THE pending request back on the queue exactly once
+//@ func (*Scheduler).processPending$1
+//@   ghost-at entry : ghost_q := 0
+//@   ghost-at send pendingReqCh : ghost_q := ghost_q + 1
+//@   assert-at send pendingReqCh : sent == pending
+//@   assert-at return : ghost_q == 1
+// finisher goroutines: post exactly one finished event, for their own request
+//@ func (*Scheduler).load$1$1
+//@   ghost-at entry : ghost_f := 0
+//@   ghost-at send finishedReqCh : ghost_f := ghost_f + 1
+//@   assert-at send finishedReqCh : sent == req
+//@   assert-at return : ghost_f == 1
+//@ func (*LlmRequest).useLoadedRunner$1
+//@   ghost-at entry : ghost_f := 0
+//@   ghost-at send : ghost_f := ghost_f + 1      -- (the channel is a captured parameter, not a field: any send)
+//@   assert-at send : sent == pending
+//@   assert-at return : ghost_f == 1
 
 //@ func (*Scheduler).expireRunner
 //@   assert-at send expiredCh : sent.refCount == 0 && held(sent.refMu)
+// C01/C02 (mechanism: explicit unload only enqueues an expiry when refCount<=0, otherwise zeroes the
+// keep-alive and waits for the finish event): when refMu is released the keep-alive is cancelled
+// (so the finished event of the last user expires the runner at once) and an idle runner's expiry
+// has been posted; the runner is the one loaded for that model.
+//@   ghost-at entry : ghost_posted := 0
+//@   ghost-at send expiredCh : ghost_posted := 1
+//@   assert-at send expiredCh : sent == runner
+//@   assert-at call sync.(*Mutex).Unlock! : runner.sessionDuration == 0 && runner.expireTimer == nil && (runner.refCount == 0 ==> ghost_posted == 1)
+//@   assert-at call sync.(*Mutex).Lock #2 : runner == s.loaded[model.ModelPath]
 
 //@ func (*Scheduler).findRunnerToUnload
+// C11 (making room evicts an idle runner when one exists; victims ordered by keep-alive then name):
+// the candidates are sorted before the choice; a runner returned from the idle scan was read as
+// idle (refCount == 0 under its refMu); the fallback (first of the sorted list) is taken only after
+// EVERY candidate has been read and found busy; nil only when nothing is loaded.
+//@   ghost-at entry : ghost_sorted := 0
+//@   ghost-at call sort.Sort : ghost_sorted := 1
+//@   ghost-at entry : ghost_n := 0
+//@   ghost-at after call sync.(*Mutex).Lock #2 : ghost_n := ghost_n + 1
+//@   loop 2 invariant ghost_n == rangeindex + 1
+//@   assert-at return #1 : len(runnerList) == 0
+//@   assert-at return #2 : rc == 0 && result == runner && ghost_sorted == 1
+//@   assert-at return #3 : ghost_n == len(runnerList) && ghost_sorted == 1 && len(runnerList) > 0 && result == runnerList[0]
 //@ func (*Scheduler).unloadAllRunners
 // C11 (placement: a new runner is started only where it fits in the memory the loaded models
 // leave free): the memory left free is computed from EVERY loaded runner. r.ghost_acct records
@@ -131,9 +304,32 @@ package server
 //@   loop 2 invariant rangeindex >= 0 ==> r.ghost_acct == 1
 //@   loop 2 invariant forall k string :: visited(k) && k != rangekey ==> (s.loaded[k] == nil || s.loaded[k].llama == nil || len(allGpus) == 0 || s.loaded[k].ghost_acct == 1)
 //@   assert-at call sync.(*Mutex).Unlock : arg0 == &s.loadedMu ==> (forall k string :: has(s.loaded, k) ==> (s.loaded[k] == nil || s.loaded[k].llama == nil || len(allGpus) == 0 || s.loaded[k].ghost_acct == 1))
+// C11 (placement in the memory the loaded models leave free): the free memory of a GPU is only
+// ever LOWERED by the prediction (to total - predicted, or 0 when the prediction exceeds the total).
+//@   assert-at store FreeMemory : stored <= allGpus[i].FreeMemory && (stored == 0 || stored == allGpus[i].TotalMemory - p)
 //@ func (*Scheduler).filterGPUsWithoutLoadingModels
+// C11 (avoid GPUs with loads in flight): a GPU is dropped from the result only because a runner that
+// is still loading was placed on it.
+//@   assert-at call append #2 : runner.loading && ret[i].ID == busyGPU.ID
 //@ func (*runnerRef).needsReload
 //@   assume-at entry : runner.numParallel >= 1      -- set to max(1, n) in load before the runner is published, never changed
+// C11 (reload when options/adapters/projectors differ or the runner does not answer a ping; reuse
+// when compatible): the runner is reported reusable (false) only when all three comparisons said
+// "equal" AND the ping succeeded - each recorded from the call that made it; a runner that has
+// been shut down (Options == nil) always needs a reload. The comparison of the options is made on
+// the loaded context divided by the runner's parallelism against the request's context.
+//@   ghost-at entry : ghost_eq1 := 0
+//@   ghost-at entry : ghost_eq2 := 0
+//@   ghost-at entry : ghost_eq3 := 0
+//@   ghost-at entry : ghost_ping := 0
+//@   ghost-at after call reflect.DeepEqual #1 : ghost_eq1 := ite(result, 1, 0)
+//@   ghost-at after call reflect.DeepEqual #2 : ghost_eq2 := ite(result, 1, 0)
+//@   ghost-at after call reflect.DeepEqual #3 : ghost_eq3 := ite(result, 1, 0)
+//@   ghost-at after call Ping : ghost_ping := ite(result == nil, 1, 0)
+//@   assert-at return : !result ==> (ghost_eq1 == 1 && ghost_eq2 == 1 && ghost_eq3 == 1 && ghost_ping == 1)
+//@   assert-at return : result ==> (runner.Options == nil || ghost_eq1 == 0 || ghost_eq2 == 0 || ghost_eq3 == 0 || ghost_ping == 0)
+//@   assert-at call Ping : recv == runner.llama && held(runner.refMu)
+//@   assert-at call reflect.DeepEqual #3 : optsExisting.NumCtx == runner.Options.Runner.NumCtx / runner.numParallel && optsNew.NumCtx == req.opts.Runner.NumCtx
 
 // C11 ("a request ... is served by a runner started with its options", and a compatible request
 // reuses it): whatever parallelism p the placement settles on, the fit is predicted and the runner
@@ -152,4 +348,16 @@ package server
 //@   assert-at store numParallel : stored == ghost_pp
 //@   loop 3 invariant req.opts.NumCtx == ghost_ctx
 //@   loop 3 invariant ghost_p == p
+// (4) a placement is reported only when the prediction for it said "fits"; otherwise nil.
+//@   assert-at return #1 : ok && len(result) == 1 && result[0].ID == g.ID
+//@   assert-at return #2 : ok && len(result) == len(sgl)
+//@   assert-at call PredictServerFit #1 : len(arg0) == 1 && arg0[0].ID == g.ID
+//@   assert-at call PredictServerFit #2 : len(arg0) == len(sgl)
+
+// C15 (no request makes the server panic; the list of running models never reports a torn-down
+// runner): under loadedMu every entry of the loaded map is a runner that has not been torn down
+// (lock invariant above), so the dereferences of v.model in PsHandler cannot fail.
+//@ func (*Server).PsHandler
+//@   requires s != nil && s.sched != nil       -- assumption (the handler is called by gin): Serve creates the scheduler before the routes are served
+//@   opt safe+ nil
 
